@@ -317,9 +317,19 @@ fn unescape(body: &str) -> Option<String> {
                 out.push(char::from_u32(u32::from_str_radix(&h, 16).ok()?)?);
             }
             '\n' => {
-                // line continuation: skip the following whitespace
-                while i < cs.len() && cs[i].is_whitespace() {
+                // line continuation. The language reference (Strings, "Escape
+                // sequences"): "Roto will ignore any whitespace after a `\` followed by
+                // a newline". Blanks, tabs and line ends (LF, CR LF) are whitespace
+                // beyond doubt and are skipped, however many lines they span. Whether
+                // other characters (U+000B, U+000C, U+00A0, U+3000 ...) count as
+                // whitespace here is not settled by that sentence: a literal in which
+                // the skipped run is followed by such a character has no documented
+                // value, and is not decoded (the generators never produce one).
+                while i < cs.len() && matches!(cs[i], ' ' | '\t' | '\n' | '\r') {
                     i += 1;
+                }
+                if i < cs.len() && cs[i].is_whitespace() {
+                    return None;
                 }
             }
             _ => return None,
@@ -469,9 +479,9 @@ fn float_literal(rng: &mut Rng) -> LitCase {
     }
 }
 
-const TEXT_PIECES: [&str; 30] = [
+const TEXT_PIECES: [&str; 32] = [
     "a", "Z", "0", " ", "_", "é", "ß", "東京", "ж", "𝄞", "ñ", "\\n", "\\t", "\\r", "\\0", "\\\\", "\\\"", "\\'", "\\x41",
-    "\\x7f", "\\x00", "\\u{e9}", "\\u{1F600}", "\\u{0}", "\\u{10FFFF}", "\\\n   ", "'", "{", "}", "-",
+    "\\x7f", "\\x00", "\\u{e9}", "\\u{1F600}", "\\u{0}", "\\u{10FFFF}", "\\\n   ", "'", "{", "}", "-", "\\\n\n\t ", "\\\n",
 ];
 
 fn string_literal(rng: &mut Rng) -> LitCase {
@@ -490,6 +500,181 @@ fn string_literal(rng: &mut Rng) -> LitCase {
         expect: Expect::Str(expect),
         spelling,
     }
+}
+
+/// One line continuation: `\` LF and a run of what the reference says is ignored
+/// ("any whitespace after a `\` followed by a newline"): 0..3 blank lines (empty or
+/// holding blanks/tabs, ended by LF or CR LF) and the indentation of the next line.
+fn continuation(rng: &mut Rng, tags: &mut Vec<String>) -> String {
+    let mut s = String::from("\\\n");
+    let blank = rng.usize(4);
+    for _ in 0..blank {
+        match rng.below(4) {
+            0 | 1 => {}
+            2 => s.push_str("    "),
+            _ => s.push_str(" \t"),
+        }
+        if rng.chance(1, 5) {
+            s.push_str("\r\n");
+            tags.push("continuation:blank-line-ends-with-crlf".into());
+        } else {
+            s.push('\n');
+        }
+    }
+    tags.push(format!("continuation:blank-lines:{blank}"));
+    let indent = match rng.below(6) {
+        0 => ("", "none"),
+        1 => ("    ", "spaces"),
+        2 => ("\t", "tab"),
+        3 => (" \t  \t", "mixed"),
+        4 => ("                ", "spaces"),
+        _ => (" ", "spaces"),
+    };
+    s.push_str(indent.0);
+    tags.push(format!("continuation:indent:{}", indent.1));
+    // a lone CR inside the skipped run is whitespace like the rest
+    if rng.chance(1, 12) {
+        s.push_str("\r ");
+        tags.push("continuation:lone-cr-in-skipped-run".into());
+    }
+    s
+}
+
+/// Strings and f-strings with line continuations of every shape: at the start, in
+/// the middle and at the end of the literal, several in one literal, next to other
+/// escapes, multi-byte text, and (f-strings) next to `{expr}`, `{{` and `}}`.
+/// Each continuation carries its whole skipped run, and what follows it never starts
+/// with a whitespace character, so the value is the concatenation of the pieces'
+/// values with every continuation contributing nothing.
+fn continuation_literal(rng: &mut Rng) -> (LitCase, Vec<String>) {
+    // (spelling, tag); none starts with whitespace
+    const SOLID: [(&str, &str); 26] = [
+        ("a", "ascii"),
+        ("Z9", "ascii"),
+        ("_", "ascii"),
+        ("-", "ascii"),
+        ("'", "ascii"),
+        ("é", "multibyte"),
+        ("ß", "multibyte"),
+        ("東京", "multibyte"),
+        ("ж", "multibyte"),
+        ("𝄞", "multibyte"),
+        ("\\n", "escape"),
+        ("\\t", "escape"),
+        ("\\r", "escape"),
+        ("\\0", "escape"),
+        ("\\\\", "escape"),
+        ("\\\"", "escape"),
+        ("\\'", "escape"),
+        ("\\x41", "escape"),
+        ("\\x20", "escaped-blank"),
+        ("\\x09", "escaped-blank"),
+        ("\\x0a", "escaped-blank"),
+        ("\\u{20}", "escaped-blank"),
+        ("\\u{e9}", "escape"),
+        ("\\u{1F600}", "escape"),
+        ("\\u{a0}", "escaped-blank"),
+        ("\\u{3000}", "escaped-blank"),
+    ];
+    let fstr = rng.chance(1, 2);
+    let mut tags = Vec::new();
+    let x = rng.range(-50, 50);
+    let b = rng.bool();
+    let n = 1 + rng.usize(7);
+    let n_cont = 1 + rng.usize(3.min(n));
+    // which of the n pieces are continuations: the ends are the interesting places
+    let mut is_cont = vec![false; n];
+    match rng.below(4) {
+        0 => is_cont[0] = true,
+        1 => is_cont[n - 1] = true,
+        _ => {}
+    }
+    while is_cont.iter().filter(|c| **c).count() < n_cont {
+        is_cont[rng.usize(n)] = true;
+    }
+    let mut body = String::new();
+    let mut expect = String::new();
+    let mut prev = "start";
+    let mut after_cont = false;
+    let mut count = 0;
+    for (i, &c) in is_cont.iter().enumerate() {
+        let kind: &'static str;
+        if c {
+            body.push_str(&continuation(rng, &mut tags));
+            kind = "continuation";
+            count += 1;
+            tags.push(format!("continuation:at:{}", if n == 1 { "whole-literal" } else if i == 0 { "start" } else if i == n - 1 { "end" } else { "middle" }));
+            tags.push(format!("continuation:after:{prev}"));
+        } else {
+            let pick = rng.below(if fstr { 10 } else { 7 });
+            match pick {
+                // blanks in front of a continuation (or anywhere else but right after one) stay
+                0 if !after_cont => {
+                    let sp = if rng.bool() { " " } else { "   " };
+                    body.push_str(sp);
+                    expect.push_str(sp);
+                    kind = "blanks";
+                }
+                7 => {
+                    let (sp, v) = match rng.below(3) {
+                        0 => ("{x}", x.to_string()),
+                        1 => ("{ x + 1 }", (x + 1).to_string()),
+                        _ => ("{b}", b.to_string()),
+                    };
+                    body.push_str(sp);
+                    expect.push_str(&v);
+                    kind = "interpolation";
+                }
+                8 => {
+                    body.push_str("{{");
+                    expect.push('{');
+                    kind = "brace-escape";
+                }
+                9 => {
+                    body.push_str("}}");
+                    expect.push('}');
+                    kind = "brace-escape";
+                }
+                _ => {
+                    let (sp, t) = SOLID[rng.usize(SOLID.len())];
+                    body.push_str(sp);
+                    expect.push_str(&unescape(sp).expect("valid escape"));
+                    kind = t;
+                }
+            }
+            if after_cont {
+                tags.push(format!("continuation:before:{kind}"));
+            }
+        }
+        after_cont = c;
+        prev = kind;
+    }
+    if after_cont {
+        tags.push("continuation:before:end".into());
+    }
+    tags.push(format!("continuation:per-literal:{count}"));
+    tags.push(format!("continuation:in:{}", if fstr { "fstring" } else { "string" }));
+    let spelling = if fstr { format!("f\"{body}\"") } else { format!("\"{body}\"") };
+    // the whole-body decoder must agree with the piecewise value (strings only: it
+    // does not know about `{`); a disagreement is a mistake of the generator
+    if !fstr {
+        assert_eq!(unescape(&body).as_deref(), Some(expect.as_str()), "decoder and generator disagree on {body:?}");
+    }
+    let place = match rng.below(3) {
+        0 => format!("fn main() -> String {{\n    let x = {x};\n    let b = {b};\n    {spelling}\n}}\n"),
+        1 => format!("fn main() -> String {{\n    let x = {x};\n    let b = {b};\n    let s = {spelling};\n    s\n}}\n"),
+        _ => format!("fn id(s: String) -> String {{\n    s\n}}\n\nfn main() -> String {{\n    let x = {x};\n    let b = {b};\n    id({spelling})\n}}\n"),
+    };
+    (
+        LitCase {
+            class: if fstr { "fstring:continuation-lines" } else { "string:continuation-lines" },
+            ty: "String".into(),
+            src: place,
+            expect: Expect::Str(expect),
+            spelling,
+        },
+        tags,
+    )
 }
 
 fn char_literal(rng: &mut Rng) -> LitCase {
@@ -563,7 +748,31 @@ fn ipv4(rng: &mut Rng) -> Ipv4Addr {
     Ipv4Addr::new(o(rng), o(rng), o(rng), o(rng))
 }
 
-fn ipv6_text(rng: &mut Rng) -> (String, Ipv6Addr) {
+/// The canonical text of an IPv6 address from hex groups only: lower-case groups
+/// without leading zeros, the longest run of two or more zero groups (the first
+/// one if there are several) written as `::`.
+fn ipv6_hex_groups(segs: &[u16; 8]) -> String {
+    let (mut best_at, mut best_len) = (0, 0);
+    let mut i = 0;
+    while i < 8 {
+        if segs[i] == 0 {
+            let mut j = i;
+            while j < 8 && segs[j] == 0 {
+                j += 1;
+            }
+            if j - i > best_len {
+                (best_at, best_len) = (i, j - i);
+            }
+            i = j;
+        } else {
+            i += 1;
+        }
+    }
+    let hex = |g: &[u16]| g.iter().map(|s| format!("{s:x}")).collect::<Vec<_>>().join(":");
+    if best_len < 2 { hex(segs) } else { format!("{}::{}", hex(&segs[..best_at]), hex(&segs[best_at + best_len..])) }
+}
+
+fn ipv6_text(rng: &mut Rng, tags: &mut Vec<String>) -> (String, Ipv6Addr) {
     let mut segs = [0u16; 8];
     for s in segs.iter_mut() {
         *s = match rng.below(4) {
@@ -581,16 +790,25 @@ fn ipv6_text(rng: &mut Rng) -> (String, Ipv6Addr) {
         }
     }
     let addr = Ipv6Addr::from(segs);
+    // Only hex groups and `::` are spelled. The form with a dotted IPv4 tail
+    // (`::ffff:1.2.3.4`, `::1.2.3.4`), which the Display of std's Ipv6Addr uses for
+    // IPv4-mapped and IPv4-compatible addresses, is not promised by the documentation
+    // (unspecified): such an address is spelled with hex groups like any other.
+    let compressed = ipv6_hex_groups(&segs);
+    assert_eq!(compressed.parse::<Ipv6Addr>().ok(), Some(addr), "hex-group spelling of {segs:x?}");
+    if addr.to_string().contains('.') {
+        tags.push("unspecified:ipv6-dotted-tail".into());
+    }
     let text = match rng.below(4) {
-        0 => addr.to_string(),
-        1 => addr.to_string().to_uppercase(),
+        0 => compressed,
+        1 => compressed.to_uppercase(),
         2 => segs.iter().map(|s| format!("{s:04x}")).collect::<Vec<_>>().join(":"),
         _ => segs.iter().map(|s| format!("{s:X}")).collect::<Vec<_>>().join(":"),
     };
     (text, addr)
 }
 
-fn net_literal(rng: &mut Rng) -> LitCase {
+fn net_literal(rng: &mut Rng, tags: &mut Vec<String>) -> LitCase {
     match rng.below(5) {
         0 => {
             let a = ipv4(rng);
@@ -604,7 +822,7 @@ fn net_literal(rng: &mut Rng) -> LitCase {
             }
         }
         1 => {
-            let (spelling, a) = ipv6_text(rng);
+            let (spelling, a) = ipv6_text(rng, tags);
             // the std parser is the oracle for the spelling itself
             let parsed: Ipv6Addr = spelling.parse().unwrap_or(a);
             LitCase {
@@ -644,7 +862,7 @@ fn net_literal(rng: &mut Rng) -> LitCase {
             }
         }
         _ => {
-            let (t, a) = ipv6_text(rng);
+            let (t, a) = ipv6_text(rng, tags);
             let parsed: Ipv6Addr = t.parse().unwrap_or(a);
             let len = rng.below(129) as u8;
             let spelling = format!("{t}/{len}");
@@ -1040,17 +1258,24 @@ impl Family for Grammar {
                 }
             }
             20..=84 => {
-                let c = match rng.below(13) {
+                let mut extra_tags = Vec::new();
+                let c = match rng.below(15) {
                     0..=2 => int_literal(rng),
                     3..=4 => float_literal(rng),
                     5..=6 => string_literal(rng),
                     7 => char_literal(rng),
                     8..=9 => fstring_literal(rng),
-                    10..=11 => net_literal(rng),
-                    _ => ident_case(rng),
+                    10..=11 => net_literal(rng, &mut extra_tags),
+                    12 => ident_case(rng),
+                    _ => {
+                        let (c, t) = continuation_literal(rng);
+                        extra_tags = t;
+                        c
+                    }
                 };
                 out.hash = hash_str(&c.src);
                 out.tags.push(format!("literal:{}", c.class));
+                out.tags.extend(extra_tags);
                 out.sample = Some(J::obj().set("class", c.class).set("spelling", c.spelling.as_str()).set("source", c.src.as_str()));
                 out.evals = 1;
                 out.events = 1;
